@@ -64,6 +64,23 @@ template <class T> static void shrt44 (Gen<T>& g, int it)
         try { computeRSMatrix (false, false, I4, M); } catch (std::domain_error&) { ++th; }
         Rec q ("rsdeg"); q.str ("t", t); q.num ("thrown", th); q.emit ();
     }
+    if (mode < 4)
+    {
+        // extractSHRT with an explicit rotation order: the angles come back in x, y, z slots for that order
+        static const typename Euler<T>::Order orders[] = {Euler<T>::YZX, Euler<T>::ZXY, Euler<T>::XZY, Euler<T>::YXZ, Euler<T>::ZYX, Euler<T>::XYZ};
+        typename Euler<T>::Order ord = orders[(it / 5) % 6];
+        Vec3<T> so, ho, ro, to;
+        bool oko = extractSHRT (M, so, ho, ro, to, false, ord);
+        Euler<T> eo (M, ord); Vec3<T> s5, h5, t5;
+        bool oke = extractSHRT (M, s5, h5, eo, t5, false);
+        Matrix44<T> So, Ho, Ro, To, Re;
+        So.setScale (so); Ho.setShear (ho); To.setTranslation (to);
+        Ro = Euler<T> (ro, ord, Euler<T>::XYZLayout).toMatrix44 ();
+        Re = eo.toMatrix44 ();
+        Rec q ("shrto"); q.str ("t", t); q.num ("n", 4); q.num ("order", (int) ord); q.num ("ok", oko); q.num ("oke", oke); q.raw ("m", jv (M));
+        q.raw ("S", jv (So)); q.raw ("H", jv (Ho)); q.raw ("R", jv (Ro)); q.raw ("T", jv (To)); q.raw ("Re", jv (Re));
+        q.raw ("s", jv (so)); q.raw ("s5", jv (s5)); q.raw ("h", jv (ho)); q.raw ("h5", jv (h5)); q.emit ();
+    }
     if (mode < 4 && it % 3 == 0)
     {
         Vec3<T> sb, hb, rb, tb;
